@@ -8,8 +8,13 @@ MultipleLikelihoodPosterior sum rule, and the finite-difference switch."""
 import numpy as np
 import scipy.sparse as sp
 from vfw import refs
-from checks._c03_engine import Case
+from checks._c03_engine import Case, Pieces
 from checks import _c03_objects as O
+
+
+def _W(pieces):
+    """wrapper applied to every user-supplied callable: identity when the object has no aliasing facet"""
+    return (lambda f, name, view=None, constant=False: f) if pieces is None else pieces.wrap
 
 
 # ------------------------------------------------------------------------------------------
@@ -19,9 +24,10 @@ def _img_shape(p):
     return (2, p // 2) if (p % 2 == 0 and p >= 4) else (p, 1)
 
 
-def make_domain_geometry(kind, p):
+def make_domain_geometry(kind, p, pieces=None):
     import cuqi
     G = cuqi.geometry
+    W = _W(pieces)
     if kind == "default":
         return G._DefaultGeometry1D(p)
     if kind == "continuous1d":
@@ -33,17 +39,28 @@ def make_domain_geometry(kind, p):
     if kind == "image2dF":
         return G.Image2D(_img_shape(p), order="F")
     if kind in ("mapped", "mapped-usergrad"):
-        g = G.MappedGeometry(G.Continuous1D(p), map=lambda x: 2 * x, imap=lambda x: x / 2)
+        g = G.MappedGeometry(G.Continuous1D(p), map=W(lambda x: 2 * x, "geometry.map"), imap=W(lambda x: x / 2, "geometry.imap"))
         if kind.endswith("-usergrad"):
-            g.gradient = lambda direction, wrt: 2 * np.asarray(direction, float)
+            g.gradient = W(lambda direction, wrt: 2 * np.asarray(direction, float), "geometry.gradient")
         return g
     if kind == "mappedsq-usergrad":
-        g = G.MappedGeometry(G.Continuous1D(p), map=lambda x: x ** 2, imap=lambda x: np.sqrt(x))
-        g.gradient = lambda direction, wrt: 2 * np.asarray(wrt, float) * np.asarray(direction, float)
+        g = G.MappedGeometry(G.Continuous1D(p), map=W(lambda x: x ** 2, "geometry.map"), imap=W(lambda x: np.sqrt(x), "geometry.imap"))
+        g.gradient = W(lambda direction, wrt: 2 * np.asarray(wrt, float) * np.asarray(direction, float), "geometry.gradient")
         return g
     if kind == "mappedexp-usergrad":
-        g = G.MappedGeometry(G.Continuous1D(p), map=lambda x: np.exp(0.5 * x), imap=lambda x: 2 * np.log(x))
-        g.gradient = lambda direction, wrt: 0.5 * np.exp(0.5 * np.asarray(wrt, float)) * np.asarray(direction, float)
+        g = G.MappedGeometry(G.Continuous1D(p), map=W(lambda x: np.exp(0.5 * x), "geometry.map"),
+                             imap=W(lambda x: 2 * np.log(x), "geometry.imap"))
+        g.gradient = W(lambda direction, wrt: 0.5 * np.exp(0.5 * np.asarray(wrt, float)) * np.asarray(direction, float),
+                       "geometry.gradient")
+        return g
+    if kind == "flip-usergrad":
+        # par2fun reverses the order of the components (a permutation): map, imap and the user-supplied derivative can
+        # each be written as a new array or as a VIEW of the argument
+        g = G.MappedGeometry(G.Continuous1D(p),
+                             map=W(lambda x: np.array(np.asarray(x, float)[::-1]), "geometry.map", view=lambda x: np.asarray(x)[::-1]),
+                             imap=W(lambda x: np.array(np.asarray(x, float)[::-1]), "geometry.imap", view=lambda x: np.asarray(x)[::-1]))
+        g.gradient = W(lambda direction, wrt: np.array(np.asarray(direction, float)[::-1]), "geometry.gradient",
+                       view=lambda direction, wrt: np.asarray(direction)[::-1])
         return g
     if kind in ("kl", "kl-usergrad"):
         g = G.KLExpansion(np.linspace(0, 1, p + 2), decay_rate=1.5, normalizer=2.0, num_modes=p)
@@ -54,7 +71,7 @@ def make_domain_geometry(kind, p):
     if kind.endswith("-usergrad"):
         # user-supplied derivative of the (linear) par2fun map, built from the geometry's own map on the basis
         J = np.column_stack([np.asarray(g.par2fun(e), float).ravel() for e in np.eye(p)])
-        g.gradient = lambda direction, wrt, J=J: J.T @ np.asarray(direction, float).ravel()
+        g.gradient = W(lambda direction, wrt, J=J: J.T @ np.asarray(direction, float).ravel(), "geometry.gradient")
     return g
 
 
@@ -81,9 +98,12 @@ MODEL_KINDS = ["matrix", "funadj", "jac", "dirjac", "nograd", "pde-jac", "pde-gr
 # ------------------------------------------------------------------------------------------
 # forward models
 # ------------------------------------------------------------------------------------------
-def make_model(kind, G, R, k):
-    """Forward model acting on the *function values* of the domain geometry G, output = function values of R."""
+def make_model(kind, G, R, k, pieces=None):
+    """Forward model acting on the *function values* of the domain geometry G, output = function values of R.
+    pieces: registry through which every user-supplied callable (forward, adjoint, Jacobian, direction-Jacobian product,
+    PDE derivative methods) is passed (aliasing facet: fresh / stored arrays / views of the argument)."""
     import cuqi
+    W = _W(pieces)
     fshape = tuple(G.fun_shape)
     n = int(np.prod(fshape))
     rshape = tuple(R.fun_shape)
@@ -121,18 +141,41 @@ def make_model(kind, G, R, k):
     def dirjac_nl(direction, wrt):
         return (z_(direction) @ jac_nl(wrt)).reshape(fshape)
 
+    # "flip" operator (a selection matrix): y_i = z_{n-1-i} for i < n, y_i = 0 for i >= n (needs n <= r); its adjoint
+    # w_j = y_{n-1-j} can be written as a new array or as a VIEW of its argument
+    def forward_flip(x):
+        y = np.zeros(r)
+        y[:n] = z_(x)[::-1]
+        return out_(y)
+
+    def adjoint_flip(y):
+        return np.array(z_(y)[:n][::-1]).reshape(fshape)
+
+    def adjoint_flip_view(y):
+        return z_(y)[:n][::-1].reshape(fshape)
+
     if kind == "matrix":
         return cuqi.model.LinearModel(A, range_geometry=R, domain_geometry=G)
     if kind == "funadj":
-        return cuqi.model.LinearModel(forward_lin, adjoint=adjoint_lin, range_geometry=R, domain_geometry=G)
+        return cuqi.model.LinearModel(W(forward_lin, "model.forward"), adjoint=W(adjoint_lin, "model.adjoint"),
+                                      range_geometry=R, domain_geometry=G)
     if kind == "jac":
-        return cuqi.model.Model(forward_nl, R, G, jacobian=lambda x: jac_nl(x) @ Perm)
+        return cuqi.model.Model(W(forward_nl, "model.forward"), R, G, jacobian=W(lambda x: jac_nl(x) @ Perm, "model.jacobian"))
     if kind == "dirjac":
-        return cuqi.model.Model(forward_nl, R, G, gradient=dirjac_nl)
+        return cuqi.model.Model(W(forward_nl, "model.forward"), R, G, gradient=W(dirjac_nl, "model.gradient"))
     if kind == "nograd":
-        return cuqi.model.Model(forward_nl, R, G)
+        return cuqi.model.Model(W(forward_nl, "model.forward"), R, G)
+    if kind in ("funadj-flip", "dirjac-flip"):
+        if n > r:
+            raise ValueError("harness: the flip operator needs n <= r")
+        if kind == "funadj-flip":
+            return cuqi.model.LinearModel(W(forward_flip, "model.forward"), adjoint=W(adjoint_flip, "model.adjoint", view=adjoint_flip_view),
+                                          range_geometry=R, domain_geometry=G)
+        return cuqi.model.Model(W(forward_flip, "model.forward"), R, G,
+                                gradient=W(lambda direction, wrt: adjoint_flip(direction), "model.gradient",
+                                           view=lambda direction, wrt: adjoint_flip_view(direction)))
     if kind.startswith("pde"):
-        return _make_pde_model(kind, G, R, k, n, r, fshape, rshape, Perm)
+        return _make_pde_model(kind, G, R, k, n, r, fshape, rshape, Perm, W)
     raise ValueError(kind)
 
 
@@ -143,7 +186,7 @@ def _lap(n):
     return L
 
 
-def _make_pde_model(kind, G, R, k, n, r, fshape, rshape, Perm):
+def _make_pde_model(kind, G, R, k, n, r, fshape, rshape, Perm, W):
     import cuqi
     L = _lap(n)
     b = 1.0 + 0.25 * np.arange(n)
@@ -166,9 +209,11 @@ def _make_pde_model(kind, G, R, k, n, r, fshape, rshape, Perm):
                 J = M @ J + dt * np.diag(0.5 * np.exp(0.5 * z))
             return Obs @ J
 
+        tgrad = W(lambda direction, wrt: (np.asarray(direction, float).ravel() @ jac_u(wrt)).reshape(fshape), "pde.gradient_wrt_parameter")
+
         class _TimePDE(cuqi.pde.TimeDependentLinearPDE):
             def gradient_wrt_parameter(self, direction, wrt):
-                return (np.asarray(direction, float).ravel() @ jac_u(wrt)).reshape(fshape)
+                return tgrad(direction, wrt)
         pde = _TimePDE(form, time_steps=dt * np.arange(nsteps + 1), observation_map=obs_map)
         return cuqi.model.PDEModel(pde, R, G)
 
@@ -182,13 +227,16 @@ def _make_pde_model(kind, G, R, k, n, r, fshape, rshape, Perm):
         u = np.linalg.solve(K, b + C @ z)
         return Obs @ np.linalg.solve(K, C - np.diag(0.5 * np.exp(0.5 * z) * u))
 
+    pjac = W(lambda wrt: jac_u(wrt) @ Perm, "pde.jacobian_wrt_parameter")
+    pgrad = W(lambda direction, wrt: (np.asarray(direction, float).ravel() @ jac_u(wrt)).reshape(fshape), "pde.gradient_wrt_parameter")
+
     class _PDEJac(cuqi.pde.SteadyStateLinearPDE):
         def jacobian_wrt_parameter(self, wrt):
-            return jac_u(wrt) @ Perm
+            return pjac(wrt)
 
     class _PDEGrad(cuqi.pde.SteadyStateLinearPDE):
         def gradient_wrt_parameter(self, direction, wrt):
-            return (np.asarray(direction, float).ravel() @ jac_u(wrt)).reshape(fshape)
+            return pgrad(direction, wrt)
 
     cls = {"pde-jac": _PDEJac, "pde-grad": _PDEGrad, "pde-none": cuqi.pde.SteadyStateLinearPDE}[kind]
     pde = cls(form, observation_map=obs_map)
@@ -303,7 +351,7 @@ PRIORS = ["gaussian", "gaussian-sqrtcov", "gmrf", "gmrf-neumann2", "cmrf", "cauc
           "invgamma", "lognormal", "uniform", "normal", "userdefined", "gaussian-zero"]
 
 
-def make_prior(kind, p, k, npts):
+def make_prior(kind, p, k, npts, pieces=None):
     """-> (distribution named 'x', inside points, outside points)"""
     import cuqi
     D = cuqi.distribution
@@ -346,7 +394,7 @@ def make_prior(kind, p, k, npts):
     if kind == "userdefined":
         P = S
         logpdf = lambda x: float(-0.5 * (np.asarray(x) - lv) @ P @ (np.asarray(x) - lv))
-        grad = lambda x: -(P @ (np.asarray(x) - lv))
+        grad = _W(pieces)(lambda x: -(P @ (np.asarray(x) - lv)), "UserDefinedDistribution.gradient_func")
         return D.UserDefinedDistribution(dim=p, logpdf_func=logpdf, gradient_func=grad, name="x"), real, []
     raise ValueError(kind)
 
@@ -366,31 +414,54 @@ def prior_int_points(kind, p, k, n):
     return O.ipts(p, k, n)
 
 
-def _likelihood(mk, geom, p, r, k, noise="gauss-cov-scalar", j=0, name="y"):
+def _likelihood(mk, geom, p, r, k, noise="gauss-cov-scalar", j=0, name="y", pieces=None):
     import cuqi
-    G = make_domain_geometry(geom, p)
+    G = make_domain_geometry(geom, p, pieces)
     R = make_range_geometry("default", r)
-    model = make_model(mk, G, R, k + j)
+    model = make_model(mk, G, R, k + j, pieces)
     d = make_data_distribution(noise, model, r, k + j)
     d.name = name
     return d, make_data(noise, r, k, j)
 
 
-def make_user_likelihood(p, k, j=0, grad=True, geom="default", par="x", name="u"):
-    """UserDefinedLikelihood in the variable `par`: a smooth non-Gaussian log-density (sum of log(1+(x_i-c_i)^2) terms)
-    with its exact gradient (correct by construction) or without gradient_func; geom: 'none' (no geometry given),
-    'default', 'continuous1d'."""
+def make_user_likelihood(p, k, j=0, grad=True, geom="default", par="x", name="u", shape="smooth", pieces=None):
+    """UserDefinedLikelihood in the variable `par` with its exact gradient (correct by construction) or without
+    gradient_func; geom: 'none' (no geometry given), 'default', 'continuous1d'.
+    shape: 'smooth'  a smooth non-Gaussian log-likelihood (sum of log(1+(x_i-c_i)^2) terms)
+           'linear'  l(x) = c.x (exponential tilt): the gradient is the constant vector c - under the aliasing facet 'stored'
+                     the gradient_func returns the ONE stored array c on every call
+           'quad'    l(x) = |x|^2/2: the gradient is x - under the aliasing facet 'view' the gradient_func returns its argument
+    pieces: registry through which the gradient_func is passed (aliasing facet)"""
     import cuqi
     c = O.locvec(p, k + j + 1) + 0.25
     w = O.posvec(p, k + j)
+    kw = {}
+    if shape == "smooth":
+        def value(x):
+            x = np.asarray(x, float).ravel()
+            return float(-np.sum(w * np.log(1.0 + (x - c) ** 2)))
 
-    def value(x):
-        x = np.asarray(x, float).ravel()
-        return float(-np.sum(w * np.log(1.0 + (x - c) ** 2)))
+        def gradient(x):
+            x = np.asarray(x, float).ravel()
+            return -2.0 * w * (x - c) / (1.0 + (x - c) ** 2)
+    elif shape == "linear":
+        def value(x):
+            return float(c @ np.asarray(x, float).ravel())
 
-    def gradient(x):
-        x = np.asarray(x, float).ravel()
-        return -2.0 * w * (x - c) / (1.0 + (x - c) ** 2)
+        def gradient(x):
+            return c.copy()
+        kw = {"constant": True}
+    elif shape == "quad":
+        def value(x):
+            x = np.asarray(x, float).ravel()
+            return float(0.5 * (x @ x))
+
+        def gradient(x):
+            return np.array(x, dtype=float, copy=True)
+        kw = {"view": lambda x: x}
+    else:
+        raise ValueError(shape)
+    gradient = _W(pieces)(gradient, "UserDefinedLikelihood.gradient_func", **kw)
     # the parameter name of a user-defined likelihood is the argument name of its logpdf_func
     ns = {"value": value}
     exec("def logpdf(%s):\n    return value(%s)" % (par, par), ns)
@@ -519,3 +590,128 @@ def gen_mlp(p, k, npts):
                     box = {"lo": np.r_[np.full(p, -np.inf), lvw - 1.0], "hi": np.r_[np.full(p, np.inf), lvw + 1.0 + pvw]}
                 return Case("_StackedJointDistribution", facets, obj, pts, fd_targets=[obj], **O.ipts(2 * p, k, npts, **box))
             yield "_StackedJointDistribution", keys, facets, build
+
+
+# ------------------------------------------------------------------------------------------
+# facet "user-supplied pieces return fresh arrays / stored arrays / views of their input" on the composite objects
+# ------------------------------------------------------------------------------------------
+USER_SHAPES = {"userlik": "smooth", "userlik-linear": "linear", "userlik-quad": "quad",
+               "user": "smooth", "userlin": "linear", "userquad": "quad"}
+
+
+def _aliases(*names):
+    """aliasing variants of a configuration: fresh and stored always; view when one of its pieces has a view form"""
+    has_view = any(("flip" in n_) or n_ in ("userlik-quad", "userquad") for n_ in names)
+    return ("fresh", "stored", "view") if has_view else ("fresh", "stored")
+
+
+def gen_alias(group, p, k, npts, thorough=False):
+    """Composite objects whose user-supplied callables (gradient_func of UserDefinedLikelihood / UserDefinedDistribution,
+    forward / adjoint / Jacobian / direction-Jacobian product of the forward model, PDE derivative methods, map / imap /
+    gradient of the domain geometry) all return - facet `alias` - fresh arrays, stored arrays (the same object whenever the
+    same arguments recur; ONE array for a constant function) or, where the piece allows it, a view of their argument.
+    The objects carry the interior catalogue points only (the other point facets are crossed in the main cells); the
+    repetition pass of the check evaluates them repeatedly on the live object and the stored arrays are compared with
+    their pristine copies afterwards."""
+    import cuqi
+    D = cuqi.distribution
+    r = p + 1
+    if group == "lik":
+        keys = ["model", "geom", "noise", "alias"]
+        combos = [(mk, "default") for mk in ("funadj", "jac", "dirjac", "pde-jac", "pde-grad", "pde-time-grad", "funadj-flip", "dirjac-flip")]
+        combos += [(mk, g) for g in ("mappedsq-usergrad", "kl-usergrad", "flip-usergrad") for mk in ("funadj", "jac", "dirjac")]
+        combos += [("funadj-flip", "flip-usergrad")]
+        noises = ("gauss-cov-dense", "lognormal-dense") if thorough else ("gauss-cov-dense",)
+        for noise in noises:
+            for mk, geom in combos:
+                for alias in _aliases(mk, geom):
+                    facets = {"model": mk, "geom": geom, "noise": noise, "alias": alias, "_sig": ["model", "alias"]}
+
+                    def build(mk=mk, geom=geom, noise=noise, alias=alias, facets=facets):
+                        pieces = Pieces(alias)
+                        G = make_domain_geometry(geom, p, pieces)
+                        R = make_range_geometry("default", r)
+                        model = make_model(mk, G, R, k, pieces)
+                        d = make_data_distribution(noise, model, r, k)
+                        lik = cuqi.likelihood.Likelihood(d, make_data(noise, r, k))
+                        return Case("Likelihood", facets, lik, par_points(geom, p, k, npts), fd_targets=[lik], pieces=pieces)
+                    yield "Likelihood", keys, facets, build
+        return
+    if group == "posterior":
+        keys = ["prior", "model", "geom", "via", "alias"]
+        combos = [("userlik", "default"), ("userlik-linear", "default"), ("userlik-quad", "default"), ("jac", "default"),
+                  ("dirjac", "default"), ("funadj", "default"), ("funadj-flip", "default"), ("pde-jac", "default"),
+                  ("jac", "kl-usergrad"), ("funadj", "flip-usergrad")]
+        priors = PRIORS if thorough else ("gaussian", "gmrf", "cauchy", "uniform", "userdefined")
+        for prior in priors:
+            for mk, geom in combos:
+                for alias in _aliases(mk, geom):
+                    facets = {"prior": prior, "model": mk, "geom": geom, "via": "direct", "alias": alias, "_sig": ["model", "alias"]}
+
+                    def build(prior=prior, mk=mk, geom=geom, alias=alias, facets=facets):
+                        pieces = Pieces(alias)
+                        pr, ins, out = make_prior(prior, p, k, npts, pieces)
+                        if mk in USER_SHAPES:
+                            lik = make_user_likelihood(p, k, geom=geom, shape=USER_SHAPES[mk], pieces=pieces)
+                        else:
+                            d, data = _likelihood(mk, geom, p, r, k, pieces=pieces)
+                            lik = cuqi.likelihood.Likelihood(d, data)
+                        post = D.Posterior(lik, pr)
+                        return Case("Posterior", facets, post, ins, fd_targets=[post], pieces=pieces)
+                    yield "Posterior", keys, facets, build
+        return
+    if group == "mlp":
+        keys = ["prior", "liks", "extra", "via", "alias"]
+        LIKS = ("user/matrix", "matrix/user", "userlin/jac", "matrix/userlin/userlin", "userquad/funadj", "funadj-flip/jac", "jac/dirjac")
+        for prior in ("gaussian", "uniform", "userdefined"):
+            for liks in LIKS:
+                for via in ("direct", "joint"):
+                    if via == "joint" and "user" in liks:       # joints refuse to condition with a user-defined member
+                        continue
+                    for alias in _aliases(*liks.split("/")):
+                        facets = {"prior": prior, "liks": liks, "extra": "none", "via": via, "alias": alias, "_sig": ["liks", "alias"]}
+
+                        def build(prior=prior, liks=liks, via=via, alias=alias, facets=facets):
+                            pieces = Pieces(alias)
+                            pr, ins, out = make_prior(prior, p, k, npts, pieces)
+                            members, datas = [], {}
+                            for j, mk in enumerate(liks.split("/")):
+                                if mk in USER_SHAPES:
+                                    members.append(make_user_likelihood(p, k, j=j, shape=USER_SHAPES[mk], name="u%d" % j, pieces=pieces))
+                                    continue
+                                d, data = _likelihood(mk, "default", p, r, k, noise=("gauss-cov-scalar", "gauss-cov-dense", "gauss-cov-vector")[j % 3],
+                                                      j=j, name="y%d" % j, pieces=pieces)
+                                members.append(d)
+                                datas["y%d" % j] = data
+                            if via == "direct":
+                                dens = [cuqi.likelihood.Likelihood(d, datas[d.name]) if isinstance(d, D.Distribution) else d for d in members]
+                                obj = D.MultipleLikelihoodPosterior(*(dens + [pr]))
+                            else:
+                                obj = D.JointDistribution(*(list(members) + [pr]))(**datas)
+                                if not isinstance(obj, D.MultipleLikelihoodPosterior):
+                                    raise TypeError("joint did not reduce to MultipleLikelihoodPosterior: %s" % type(obj).__name__)
+                            return Case("MultipleLikelihoodPosterior", facets, obj, ins, fd_targets=list(obj._densities), pieces=pieces)
+                        yield "MultipleLikelihoodPosterior", keys, facets, build
+        # stacked joint of two distributions x, w plus user-defined / ordinary likelihood members
+        keys = ["pair", "extra", "alias"]
+        for extra in ("user", "lik+user", "lik+userlin"):
+            for alias in ("fresh", "stored"):
+                facets = {"pair": "gaussian/cauchy", "extra": extra, "alias": alias, "_sig": ["extra", "alias"]}
+
+                def build(extra=extra, alias=alias, facets=facets):
+                    pieces = Pieces(alias)
+                    d1, i1, _ = make_prior("gaussian", p, k, npts)
+                    d2, i2, _ = make_prior("cauchy", p, k + 1, npts)
+                    d2.name = "w"
+                    dens = [d1, d2]
+                    if "lik" in extra:
+                        d, data = _likelihood("jac", "default", p, r, k, pieces=pieces)
+                        dens.insert(0, cuqi.likelihood.Likelihood(d, data))
+                    dens.append(make_user_likelihood(p, k, j=1, par="w", name="u", shape="linear" if "userlin" in extra else "smooth",
+                                                     pieces=pieces))
+                    obj = D.JointDistribution(*dens)._as_stacked()
+                    pts = [(n1, np.r_[x1, x2]) for (n1, x1), (n2, x2) in zip(i1, i2)]
+                    return Case("_StackedJointDistribution", facets, obj, pts, fd_targets=[obj], pieces=pieces)
+                yield "_StackedJointDistribution", keys, facets, build
+        return
+    raise ValueError(group)
